@@ -154,7 +154,7 @@ Section Topo.
     - apply (uniq_by_length_ext N.eqb Neqb_eq). intros y. apply ring_range_In.
   Qed.
 
-  Lemma simple_spec g t rf : sorted_strict g -> simple_replicas g t rf = spec_simple g t rf.
+  Lemma simple_spec g t rf : sorted_weak g -> simple_replicas g t rf = spec_simple g t rf.
   Proof.
     intros H. rewrite simple_replicas_firstn. unfold spec_simple.
     rewrite first_distinct_uniq by (cbn; lia). cbn [app List.length]. rewrite Nat.sub_0_r.
@@ -166,14 +166,14 @@ Section Topo.
     intros H. rewrite !simple_replicas_firstn, firstn_firstn. now rewrite Nat.min_l.
   Qed.
 
-  Lemma snap_simple g t rf e : sorted_strict g -> get_entry_for_token g t = Some e ->
+  Lemma snap_simple g t rf e : sorted_weak g -> get_entry_for_token g t = Some e ->
     simple_replicas g (fst e) rf = simple_replicas g t rf.
   Proof.
     intros Hs He. rewrite !simple_replicas_firstn. unfold ring_range.
     now rewrite (ring_range_full_snap g t e Hs He).
   Qed.
 
-  Lemma precomputed_simple g pre t rf : sorted_strict g -> get_simple g pre t rf = simple_replicas g t rf.
+  Lemma precomputed_simple g pre t rf : sorted_weak g -> get_simple g pre t rf = simple_replicas g t rf.
   Proof.
     intros Hs. unfold get_simple. destruct rf as [|rf'].
     - unfold simple_replicas. reflexivity.
@@ -308,10 +308,10 @@ Section Topo.
                     right. rewrite mem_rack_snoc, Hr, racks_of_snoc, Er, app_length. cbn. split; [reflexivity|lia].
   Qed.
 
-  Lemma nts_spec g t d rf : sorted_weak g -> sorted_strict (dcpos g d) ->
+  Lemma nts_spec g t d rf : sorted_weak g ->
     nts_replicas g t d rf = spec_nts_dc dcf rackf g t d rf.
   Proof.
-    intros Hg Hd. unfold Replicas.nts_replicas, spec_nts_dc. rewrite dc_ring_sorted by assumption.
+    intros Hg. assert (Hd : sorted_weak (dcpos g d)) by (apply sorted_weak_filter, Hg). unfold Replicas.nts_replicas, spec_nts_dc. rewrite dc_ring_sorted by assumption.
     fold (dcpos g d). unfold unique_nodes, Replicas.rack_count, racks_of, ring_range. rewrite map_map.
     rewrite ring_range_full_clockwise by assumption.
     rewrite (nts_walk_spec_fold _ _ _ [] [] [] (rf - List.length (uniq_by oeqb (map (fun x => rackf (snd x)) (dcpos g d))))%nat
@@ -338,10 +338,10 @@ Section Topo.
     rewrite !Nat.min_l by lia. now apply nts_walk_firstn.
   Qed.
 
-  Lemma snap_nts g t d rf e : sorted_strict (dc_ring g d) -> get_entry_for_token (dc_ring g d) t = Some e ->
+  Lemma snap_nts g t d rf e : get_entry_for_token (dc_ring g d) t = Some e ->
     nts_replicas g (fst e) d rf = nts_replicas g t d rf.
   Proof.
-    intros Hs He. unfold Replicas.nts_replicas, ring_range.
+    intros He. assert (Hs : sorted_weak (dc_ring g d)) by apply sort_ring_sorted. unfold Replicas.nts_replicas, ring_range.
     now rewrite (ring_range_full_snap (dc_ring g d) t e Hs He).
   Qed.
 
@@ -366,15 +366,15 @@ Section Topo.
     lia.
   Qed.
 
-  Lemma precomputed_nts g pre t d rf : sorted_strict (dc_ring g d) ->
+  Lemma precomputed_nts g pre t d rf :
     get_nts g pre t d rf = nts_replicas g t d rf.
   Proof.
-    intros Hs. unfold Replicas.get_nts. destruct rf as [|rf'].
+    unfold Replicas.get_nts. destruct rf as [|rf'].
     - unfold Replicas.nts_replicas. cbn [Nat.min]. now rewrite nts_walk_left0.
     - set (rf := S rf'). unfold Replicas.get_pre_nts.
       destruct (pre_ring_rf dcf rackf g pre d rf) as [m|] eqn:Em; [|reflexivity].
       unfold pre_lookup. destruct (get_entry_for_token (dc_ring g d) t) as [e|] eqn:Ee; cbn [option_map]; [|reflexivity].
-      rewrite firstn_min_length', (snap_nts g t d m e Hs Ee).
+      rewrite firstn_min_length', (snap_nts g t d m e Ee).
       unfold pre_ring_rf in Em.
       destruct (dc_rfs pre d) as [|x0 rfs0] eqn:Erfs; [discriminate|].
       destruct (dc_ring g d) as [|e0 r0] eqn:Er; [discriminate|]. rewrite <- Er in *.
@@ -599,13 +599,11 @@ Section Topo.
 
   Section Views.
     Variables (g : ring N) (pre : list strategy) (t : Z).
-    Hypothesis Hg : sorted_weak g.
-    Hypothesis Hd : forall d, sorted_strict (dcpos g d).
 
     Let F (m : list (N * nat)) (d : N) := get_nts g pre t d (rf_or0 m d).
 
     Lemma get_nts_eq d rf : get_nts g pre t d rf = nts_replicas g t d rf.
-    Proof. apply precomputed_nts. rewrite dc_ring_sorted by assumption. apply Hd. Qed.
+    Proof. apply precomputed_nts. Qed.
 
     Lemma F_length m d : List.length (F m d) = Nat.min (rf_or0 m d) (nodes_in_dc dcf g d).
     Proof. unfold F. rewrite get_nts_eq. apply nts_len. Qed.
@@ -744,20 +742,17 @@ Section Topo.
     apply dc_ring_In in He. apply in_map. tauto.
   Qed.
 
-  Lemma ring_range_dc g t d : sorted_strict g ->
+  Lemma ring_range_dc g t d : sorted_weak g ->
     ring_range (dc_ring g d) t = filter (in_dc d) (ring_range g t).
   Proof.
-    intros Hs. rewrite dc_ring_sorted by now apply sorted_strict_weak. unfold ring_range, dcpos.
-    rewrite ring_range_full_clockwise by now apply sorted_strict_filter.
+    intros Hs. rewrite dc_ring_sorted by assumption. unfold ring_range, dcpos.
+    rewrite ring_range_full_clockwise by now apply sorted_weak_filter.
     rewrite <- clockwise_filter, map_snd_filter. now rewrite ring_range_full_clockwise.
   Qed.
 
   Section Ordered.
     Variables (g : ring N) (pre : list strategy) (t : Z).
-    Hypothesis Hs : sorted_strict g.
-
-    Let Hg : sorted_weak g := sorted_strict_weak g Hs.
-    Let Hd : forall d, sorted_strict (dcpos g d) := fun d => sorted_strict_filter _ g Hs.
+    Hypothesis Hs : sorted_weak g.
     Let W := ring_range g t.
     Let U := uniq W.
     Let F (m : list (N * nat)) (d : N) := get_nts g pre t d (rf_or0 m d).
@@ -770,7 +765,7 @@ Section Topo.
 
     Lemma nts_subseq d rf : subseq (get_nts g pre t d rf) U.
     Proof.
-      rewrite (get_nts_eq g pre t Hg Hd). unfold Replicas.nts_replicas.
+      rewrite (get_nts_eq g pre t). unfold Replicas.nts_replicas.
       eapply subseq_trans; [apply nts_walk_subseq|]. rewrite ring_range_dc by assumption.
       rewrite uniq_filter_comm. apply subseq_filter.
     Qed.
@@ -785,7 +780,7 @@ Section Topo.
       { unfold Replicas.in_dc in Hdc. destruct (dcf x); [|discriminate]. apply N.eqb_eq in Hdc. now subst. }
       split; [|split; [|split; assumption]].
       - unfold has_replicas. rewrite Hx. unfold rf_or0 in Hrf. destruct (rf_lookup m d); [now apply Nat.ltb_lt|lia].
-      - apply ring_range_In. rewrite (get_nts_eq g pre t Hg Hd) in H. now apply nts_replicas_in_ring in H.
+      - apply ring_range_In. rewrite (get_nts_eq g pre t) in H. now apply nts_replicas_in_ring in H.
     Qed.
 
     Lemma iter_chained_NoDup m : NoDup (flat_map (F m) (ring_dcs g)).
@@ -834,7 +829,7 @@ Section Topo.
           assert (HpW : In p W) by (rewrite EW; apply in_or_app; right; now left).
           apply in_flat_map. exists d. split.
           - apply ring_dcs_In. apply ring_range_In, in_map_iff in HpW. destruct HpW as (e & <- & He). eauto.
-          - unfold F, rf_or0. rewrite Erf, (get_nts_eq g pre t Hg Hd). unfold Replicas.nts_replicas.
+          - unfold F, rf_or0. rewrite Erf, (get_nts_eq g pre t). unfold Replicas.nts_replicas.
             assert (Ewalk : exists Y, ring_range (dc_ring g d) t = p :: Y).
             { rewrite ring_range_dc by assumption. fold W. rewrite EW, filter_app. cbn [filter].
               assert (Ein : in_dc d p = true) by (unfold Replicas.in_dc; rewrite Edp; apply N.eqb_refl).
@@ -934,24 +929,24 @@ Section Topo.
   End Ordered.
 
   (* ============================================================= model = specification *)
-  Lemma replicas_spec_nts g pre t m dc : sorted_weak g -> (forall d, sorted_strict (dcpos g d)) ->
+  Lemma replicas_spec_nts g pre t m dc : sorted_weak g ->
     rs_iter dcf rackf g pre t (replicas_for dcf rackf g pre t (NTS m) dc) =
     spec_replicas dcf rackf g t (NTS m) dc.
   Proof.
-    intros Hg Hd.
+    intros Hg.
     assert (H0 : rs_iter dcf rackf g pre t (replicas_for dcf rackf g pre t (NTS m) None) = spec_nts dcf rackf g t m).
     { cbn [replicas_for rs_iter]. unfold spec_nts. apply flat_map_ext. intros d.
-      rewrite (get_nts_eq g pre t Hg Hd). now apply nts_spec. }
+      rewrite (get_nts_eq g pre t). now apply nts_spec. }
     destruct dc as [d|]; [|exact H0]. rewrite dc_filter, H0. reflexivity.
   Qed.
 
-  Lemma replicas_spec g pre t s dc : sorted_strict g ->
+  Lemma replicas_spec g pre t s dc : sorted_weak g ->
     rs_iter dcf rackf g pre t (replicas_for dcf rackf g pre t s dc) = spec_replicas dcf rackf g t s dc.
   Proof.
     intros Hs. destruct s as [rf|m| |].
     - destruct dc as [d|]; cbn [replicas_for rs_iter spec_replicas];
         now rewrite precomputed_simple, simple_spec by assumption.
-    - apply replicas_spec_nts; [now apply sorted_strict_weak|]. intros d. now apply sorted_strict_filter.
+    - now apply replicas_spec_nts.
     - destruct dc as [d|]; cbn [replicas_for rs_iter spec_replicas];
         now rewrite precomputed_simple, simple_spec by assumption.
     - destruct dc as [d|]; cbn [replicas_for rs_iter spec_replicas];
@@ -959,26 +954,26 @@ Section Topo.
   Qed.
 
   (* precomputation never changes an answer *)
-  Lemma precomputed_any g pre pre' t s dc : sorted_strict g ->
+  Lemma precomputed_any g pre pre' t s dc : sorted_weak g ->
     rs_iter dcf rackf g pre t (replicas_for dcf rackf g pre t s dc) =
     rs_iter dcf rackf g pre' t (replicas_for dcf rackf g pre' t s dc).
   Proof. intros Hs. now rewrite !replicas_spec. Qed.
 
-  Lemma len_view g pre t s dc : sorted_weak g -> (forall d, sorted_strict (dcpos g d)) -> nts_keys_ok s ->
+  Lemma len_view g pre t s dc : nts_keys_ok s ->
     rs_len dcf g (replicas_for dcf rackf g pre t s dc) =
     List.length (rs_iter dcf rackf g pre t (replicas_for dcf rackf g pre t s dc)).
   Proof.
-    intros Hg Hd Hk.
+    intros Hk.
     destruct s as [rf|m| |]; destruct dc as [d|]; cbn [replicas_for]; try reflexivity.
     - destruct (rf_lookup m d); reflexivity.
     - now apply len_chained.
   Qed.
 
-  Lemma choose_view' g pre t s dc k : sorted_weak g -> (forall d, sorted_strict (dcpos g d)) -> nts_keys_ok s ->
+  Lemma choose_view' g pre t s dc k : nts_keys_ok s ->
     rs_choose dcf rackf g pre t (replicas_for dcf rackf g pre t s dc) k =
     nth_error (rs_iter dcf rackf g pre t (replicas_for dcf rackf g pre t s dc)) k.
   Proof.
-    intros Hg Hd Hk. apply choose_view; try assumption. intros m E.
+    intros Hk. apply choose_view. intros m E.
     destruct s as [rf|m'| |]; destruct dc as [d|]; cbn [replicas_for] in E; try discriminate.
     - destruct (rf_lookup m' d); discriminate.
     - injection E as <-. exact Hk.
@@ -1001,26 +996,6 @@ Proof.
   apply Permutation_map, Permutation_sym, sort_ring_perm.
 Qed.
 
-(* ---- a token owned by two nodes: the statements that need globally distinct tokens fail --- *)
+(* ---- a ring on which two nodes own the same token (the witness of the repaired finding F18) --- *)
 Definition dup_dcf (n : N) : option N := match n with 2%N => Some 2%N | _ => Some 1%N end.
 Definition dup_ring : ring N := [(10, 1%N); (10, 2%N); (20, 3%N)].
-
-Lemma ordered_dup_refuted :
-  exists dcf rackf g pre t s dc,
-    sorted_weak g /\ (forall d, sorted_strict (dcpos dcf g d)) /\ nts_keys_ok s /\
-    ~ Permutation (fst (rs_ordered dcf rackf g pre t (replicas_for dcf rackf g pre t s dc)))
-                  (rs_iter dcf rackf g pre t (replicas_for dcf rackf g pre t s dc)).
-Proof.
-  exists dup_dcf, (fun _ => None), dup_ring, [], 10, (NTS [(1%N, 1%nat)]), None.
-  split; [cbn; lia|]. split; [|split].
-  - intros d. unfold dcpos, dup_ring. cbn [filter snd]. unfold in_dc, dup_dcf.
-    destruct (N.eqb 1 d) eqn:E1; destruct (N.eqb 2 d) eqn:E2; cbn; lia.
-  - cbn. repeat constructor. intros [].
-  - intros P. apply Permutation_length in P. vm_compute in P. discriminate.
-Qed.
-
-Lemma precomputed_dup_refuted :
-  exists (g : ring N) pre t rf, sorted_weak g /\ get_simple g pre t rf <> simple_replicas g t rf.
-Proof.
-  exists dup_ring, [], 5, 1%nat. split; [cbn; lia|]. vm_compute. intros H. discriminate H.
-Qed.
